@@ -312,23 +312,14 @@ func renamePairs(table []identEntry, cur []identObj) map[types.Object]string {
 // nil when the tree needs none.
 func canonOverlay(pkgs []*packages.Package) (map[string][]byte, []string) {
 	table := parseIdents(identsText)
-	if len(table) == 0 {
-		return nil, nil
-	}
 	cur := collectIdents(pkgs)
 	alias := renamePairs(table, cur)
-	if len(alias) == 0 {
-		return nil, nil
-	}
 	var log []string
 	for o, n := range alias {
 		log = append(log, fmt.Sprintf("%s %s -> %s", o.Pkg().Path(), o.Name(), n))
 	}
 	sort.Strings(log)
-	type edit struct {
-		off, end int
-		text     string
-	}
+	type edit = textEdit
 	edits := map[string][]edit{}
 	seenPkg := map[string]bool{}
 	packages.Visit(pkgs, nil, func(p *packages.Package) {
@@ -339,6 +330,17 @@ func canonOverlay(pkgs []*packages.Package) (map[string][]byte, []string) {
 		for _, f := range p.Syntax {
 			tf := p.Fset.File(f.Pos())
 			if tf == nil {
+				continue
+			}
+			if strings.HasSuffix(tf.Name(), ".go") && !strings.HasSuffix(tf.Name(), "_test.go") {
+				if src, err := os.ReadFile(tf.Name()); err == nil {
+					if des := desugarEdits(p, f, src); len(des) > 0 {
+						edits[tf.Name()] = append(edits[tf.Name()], des...)
+						log = append(log, fmt.Sprintf("%s: %d iterator loop(s) desugared", tf.Name(), (len(des)+1)/2))
+					}
+				}
+			}
+			if len(alias) == 0 {
 				continue
 			}
 			ast.Inspect(f, func(n ast.Node) bool {
@@ -379,8 +381,8 @@ func canonOverlay(pkgs []*packages.Package) (map[string][]byte, []string) {
 		var out []byte
 		last := 0
 		for i, e := range es {
-			if i > 0 && e.off == es[i-1].off {
-				continue // the same identifier seen through two package variants
+			if i > 0 && e.off == es[i-1].off && e.end == es[i-1].end && e.text == es[i-1].text {
+				continue // the same edit seen through two package variants
 			}
 			if e.off < last || e.end > len(src) {
 				return nil, nil
@@ -391,6 +393,9 @@ func canonOverlay(pkgs []*packages.Package) (map[string][]byte, []string) {
 		}
 		out = append(out, src[last:]...)
 		overlay[name] = out
+	}
+	if len(overlay) == 0 {
+		return nil, nil
 	}
 	return overlay, log
 }
